@@ -713,3 +713,68 @@ def check_type_pattern_groups(chk, ix):
                       % (pat, fn.name, groups, declared))
     if n < 3:
         raise AnalysisError("M11: only %d converters with a pattern found in behave.parameter_type" % n)
+
+
+WHAT["M12"] = ("every match object the step runner hands to the formatters (a Match, a NoMatch, a MatchWithError after a failed type "
+               "conversion) carries its arguments as a list: the formatters iterate match.arguments")
+
+
+def check_match_objects_have_arguments(chk, ix):
+    """M12: Matcher.match evaluated with check_match answering 'two arguments', 'no arguments' and 'the type converter raised', and
+    NoMatch() built by its constructor: the resulting object's `arguments` is a list in every case."""
+    chk.rule("M12", WHAT["M12"])
+    mc = ix.cls("behave.matchers:Matcher")
+    mm = mc.lookup("match")
+    if mm is None:
+        raise AnalysisError("anchor missing: Matcher.match")
+    cases = [("a match with two arguments", "args2"), ("a match without arguments", "args0"), ("the type converter raised ValueError", "raise"),
+             ("the type converter raised KeyError", "raise-key")]
+    for label, mode in cases:
+        def check_match(it_, st_, a, k, n, _m=mode):
+            if _m == "raise":
+                return it_.raise_exc(st_, "ValueError", n, "converter", "bad value")
+            if _m == "raise-key":
+                return it_.raise_exc(st_, "KeyError", n, "converter", "bad key")
+            items = [st_.alloc(HObj("ArgumentTok", {}, open=True, label="argument %d" % i)) for i in range(2 if _m == "args2" else 0)]
+            return [(st_, "val", st_.alloc(HObj("list", kind="list", items=items)))]
+        stubs = {"MatcherTok.check_match": check_match, "Matcher.check_match": check_match,
+                 "ExceptionUtil.has_traceback": lambda it_, st_, a, k, n: [(st_, "val", True)],
+                 "ExceptionUtil.set_traceback": lambda it_, st_, a, k, n: [(st_, "val", None)],
+                 "Match.make_location": lambda it_, st_, a, k, n: [(st_, "val", "steps/s.py:1")]}
+        it = Interp(ix, stubs=stubs, name="Matcher.match")
+        it.list_cap = 100
+        st = State()
+        st.frames = []
+        func = st.alloc(HObj("function", {"__name__": "step_impl"}, kind="closure", label="step function"))
+        me = st.alloc(HObj(mc, {"func": func, "pattern": "x", "step_type": "given"}, label="matcher"))
+        outs = it.call_function(st, mm, ["some text"], {}, None, self_val=me)
+        chk.absorb(it)
+        chk.instance("M12")
+        if len(outs) != 1 or outs[0][1] != "val" or not isinstance(outs[0][2], Ref):
+            raise AnalysisError("Matcher.match not evaluable (%s): %r" % (label, [(k, v) for _, k, v in outs][:3]))
+        s2, _, m = outs[0]
+        args = s2.obj(m).fields.get("arguments", KeyError)
+        if isinstance(args, Ref) and s2.obj(args).kind == "list":
+            chk.ok("M12", {"case": label, "match object": s2.obj(m).clsname(), "arguments": "a list"}, nontrivial_key=label)
+        else:
+            _fail(chk, "M12", mm, "%s -> %s.arguments = %r" % (label, s2.obj(m).clsname(), None if args is KeyError else args),
+                  "%s: Matcher.match returns a %s whose arguments are %r, not a list: JSONFormatter.match and PrettyFormatter.match iterate "
+                  "match.arguments and abort the whole run with a TypeError" % (label, s2.obj(m).clsname(), None if args is KeyError else args))
+    nm = ix.cls("behave.matchers:NoMatch")
+    it = Interp(ix, name="NoMatch()")
+    st = State()
+    st.frames = []
+    from .abscall import construct as _construct
+    outs = _construct(it, st, ClassVal(nm), [], {}, None)
+    chk.absorb(it)
+    chk.instance("M12")
+    if len(outs) != 1 or outs[0][1] != "val":
+        raise AnalysisError("NoMatch() not evaluable: %r" % ([(k, v) for _, k, v in outs][:3],))
+    s2, _, m = outs[0]
+    args = s2.obj(m).fields.get("arguments", KeyError)
+    if isinstance(args, Ref) and s2.obj(args).kind == "list":
+        chk.ok("M12", {"case": "undefined step", "match object": "NoMatch", "arguments": "a list"}, nontrivial_key="NoMatch")
+    else:
+        _fail(chk, "M12", nm.lookup("__init__"), "NoMatch().arguments = %r" % (None if args is KeyError else args,),
+              "NoMatch() carries arguments %r, not a list" % (None if args is KeyError else args,))
+    chk.require_instances("M12", 5)
